@@ -270,6 +270,26 @@ def hHistogram : Handler := handler fun args =>
     pure (.list [SExp.ofNats (histMerge e bs), SExp.ofNats (histBlock e bs.flatten)])
   | _ => none
 
+/-- `(bincount_w ((block…)…) ((weights…)…) minlength)` ↦ `(merged whole)` with integer (pre-scaled) weights -/
+def hBincountW : Handler := handler fun args =>
+  match args with
+  | [bs, ws, m] => do
+    let bs ← bs.toNatss?
+    let ws ← ws.toIntss?
+    let m ← m.toNat?
+    let pairs := bs.zip ws
+    pure (.list [SExp.ofInts (bincountAggW (pairs.map (fun b => bincountW b.1 b.2 m))),
+                 SExp.ofInts (bincountW bs.flatten ws.flatten m)])
+  | _ => none
+
+/-- `(unique_inverse (xs…))` ↦ the inverse mapping computed with the masked-sum formula -/
+def hUniqueInverse : Handler := handler fun args =>
+  match args with
+  | [xs] => do
+    let xs ← xs.toNats?
+    pure (SExp.ofNats (xs.map (inverseOf (uniq xs))))
+  | _ => none
+
 def encRows (rs : List URow) : SExp := .list (rs.map (fun r => SExp.ofNats [r.value, r.index, r.count]))
 
 /-- `(unique ((block…)…))` ↦ `(chunked whole)` rows `(value first-index count)` -/
@@ -332,7 +352,7 @@ def hDiagonal : Handler := handler fun args =>
 
 def table : List (String × Handler) := [
   ("shuffle", hShuffle), ("diagonal", hDiagonal),
-  ("searchsorted", hSearchsorted), ("bincount", hBincount), ("histogram", hHistogram), ("unique", hUnique),
+  ("searchsorted", hSearchsorted), ("bincount_w", hBincountW), ("unique_inverse", hUniqueInverse), ("bincount", hBincount), ("histogram", hHistogram), ("unique", hUnique),
   ("unique_internal", hUniqueInternal), ("nonzero", hNonzero), ("coarsen_sum", hCoarsen),
   ("concat_plan", hConcatPlan), ("pad", hPad), ("pad_chunks", hPadChunks), ("roll", hRoll),
   ("expand_tuple", hExpandTuple), ("contract_tuple", hContractTuple), ("lower_dim", hLowerDim),
